@@ -197,13 +197,30 @@ def _case(seed: int) -> Dict[str, Any]:
     if seed % 4 == 3:
         kw["p_frac_kernel_dur"] = 0.6  # whole-number timestamps, fractional kernel durations: nothing is rounded, the ratio is over the exact lengths
     per_rank = gen.gen_trace_set(seed, n_ranks=1 + seed % 2, **kw)
+    if seed % 5 == 2:  # the first device stream is stream 0 (the default stream): a legitimate stream id, and a falsy value
+        for evs in per_rank.values():
+            for e in evs:
+                a = e.get("args")
+                if isinstance(a, dict) and a.get("stream") == 7:
+                    a["stream"] = 0
+                    if e.get("tid") == 7:
+                        e["tid"] = 0
+    if seed % 4 == 3:  # the analysed ranks are a subset of the job's trainers: rank ids 1 and 3, not 0..n-1 (results are keyed by rank id, not by position)
+        per_rank = {2 * rk + 1: evs for rk, evs in per_rank.items()}
     fails: List[Dict[str, Any]] = []
     n = 0
     with rt.trace_dir(per_rank) as d:
         try:
             ta = rt.lib(fails, "load", {"seed": seed, "events": per_rank}, rt.load_analysis, d)
             stab = ta.t.symbol_table.get_sym_table()
-            has_comm = all(any(re.match(r"^nccl.*Kernel", stab[i]) and dd > 0 for i, dd, s in zip(ta.t.get_trace(rk)["name"], ta.t.get_trace(rk)["dur"], ta.t.get_trace(rk)["stream"]) if s != -1)
+            def _on_device(e):
+                a = e.get("args")
+                try:
+                    return isinstance(a, dict) and int(a.get("stream", -1)) != -1
+                except (TypeError, ValueError):
+                    return False
+            loaded_ids = {rk: set(int(i) for i in ta.t.get_trace(rk)["index"]) for rk in per_rank}
+            has_comm = all(any(re.match(r"^nccl.*Kernel", str(e.get("name", ""))) and e.get("dur", 0) > 0 and _on_device(e) and i in loaded_ids[rk] for i, e in gen.complete_events(per_rank[rk]))
                            for rk in per_rank)
             if not has_comm:
                 return {"n_checks": 0, "fails": [], "nontrivial": False, "clauses": {}}
@@ -212,7 +229,15 @@ def _case(seed: int) -> Dict[str, Any]:
             return {"n_checks": 1, "fails": fails, "nontrivial": True, "clauses": {}}
         for rk in per_rank:
             df = ta.t.get_trace(rk)
-            dev = df[df["stream"] != -1]
+            # which rows are device activities is read from the FILE (row id = position in the file): a loader that loses a stream id must not move the oracle with it
+            def _file_stream(e):
+                a = e.get("args")
+                try:
+                    return int(a.get("stream", -1)) if isinstance(a, dict) else -1
+                except (TypeError, ValueError):
+                    return -1
+            fstream = {i: _file_stream(e) for i, e in gen.complete_events(per_rank[rk])}
+            dev = df[[fstream.get(int(i), -1) != -1 for i in df["index"]]]
             comm, comp = [], []
             for a, b, i in zip(dev["ts"], dev["dur"], dev["name"]):
                 nm = stab[i]
